@@ -254,8 +254,10 @@ def gen_history(rng, nappend, structural=None, auto=None):
                 out.append(["variation", rng.choice([1, 1, 2])])
             elif c < 90:
                 out.append(["merge"])
+            elif c < 93:
+                out.append(["edit", rng.randint(0, 5), rng.choice(["x", "vy", "m", "r", "az", "last_collision"]), rng.uniform(-1, 1)])
             elif c < 95:
-                out.append(["edit", rng.randint(0, 5), rng.choice(["x", "vy", "m", "r"]), rng.uniform(-1, 1)])
+                out.append(rng.choice([["hash", rng.randint(0, 5), rng.randint(1, 2 ** 32 - 1)], ["lrescale", rng.choice([-1.0, 0.5, 3.25])]]))
             else:
                 out.append(["nop"])
         return out
@@ -286,6 +288,24 @@ def gen_history(rng, nappend, structural=None, auto=None):
         init["integrator"] = "leapfrog"
         ops = [["snap"], ["integrator", rng.choice(["whfast", "ias15", "janus", "mercurius"])], ["steps", 2], ["snap"],
                ["add", gen_particle(rng)], ["steps", 1], ["snap"], ["reset"], ["integrator", "leapfrog"], ["steps", 1], ["snap"]]
+    elif structural == "single_change":
+        # every snapshot differs from the first one in exactly one persisted item of one KIND: scalar, one member
+        # of one particle (hash only, too), one member of a variational configuration, one element of an
+        # integrator array; each change is reverted after its snapshot
+        init["integrator"] = rng.choice(["ias15", "whfast", "leapfrog"])
+        init["particles"] = [gen_particle(rng, star=True), gen_particle(rng), gen_particle(rng)]
+        changes = [["set", "G", 0.75], ["set", "ri_ias15.epsilon", 1e-7], ["set", "exit_max_distance", 55.0],
+                   ["hash", 1, 12345], ["hash", 2, 7], ["edit", 1, "x", 0.123], ["edit", 2, "vz", -0.5], ["edit", 0, "m", 1.5],
+                   ["edit", 1, "r", 0.01], ["edit", 2, "last_collision", 0.3], ["edit", 1, "ax", 0.25],
+                   ["lrescale", -1.0], ["lrescale", 2.5], ["varmember", "index_1st_order_a", 3], ["varpart", 1, "x", 0.5],
+                   ["poke", "array", 0, 0.625], ["poke", "array", 5, -1.5], ["set", "dt", 0.0123], ["sett", 0.77]]
+        rng.shuffle(changes)
+        ops = [["steps", 2]]
+        if init["integrator"] in ("ias15", "leapfrog"):
+            ops.append(["variation", 1])
+        ops.append(["snap"])
+        for ch in changes[:max(4, min(len(changes), nappend))]:
+            ops += [["change", ch], ["snap"], ["revert"]]
     elif structural == "same_time":
         ops = [["snap"], ["set", "G", 0.5], ["snap"], ["steps", 2], ["snap"], ["add", gen_particle(rng)], ["snap"]]
     elif structural == "negzero":
@@ -301,12 +321,15 @@ def gen_history(rng, nappend, structural=None, auto=None):
             ops.append(["auto_interval", dt * rng.choice([1.0, 2.5, 3.0, 7.3, 10.0])])
         else:
             ops.append(["auto_step", rng.randint(1, 6)])
-        for _ in range(rng.randint(1, 3)):
-            ops.append(["integrate", dt * rng.randint(3, 25), 0])
+        # direction of integration: forward, backward, or changing between integrate() calls
+        direction = rng.choice(["fwd", "fwd", "bwd", "mixed"])
+        for seg in range(rng.randint(1, 3)):
+            sgn = 1 if direction == "fwd" else -1 if direction == "bwd" else (1 if (seg + rng.randint(0, 1)) % 2 == 0 else -1)
+            ops.append(["integrate", sgn * dt * rng.randint(3, 25), 0])
             if rng.chance(0.5):
                 ops.append(["snap"])
             if rng.chance(0.3):
-                ops += free_ops(1)
+                ops += [o for o in free_ops(1) if o[0] not in ("steps", "merge")]
     else:
         for _ in range(nappend):
             ops += free_ops(rng.randint(1, 4)) + [["snap"]]
@@ -318,6 +341,70 @@ def _setpath(obj, path, val):
     for p in parts[:-1]:
         obj = getattr(obj, p)
     setattr(obj, parts[-1], val)
+
+
+def apply_change(sim, ch):
+    """one single-item change of the live state; returns a function that undoes it (None: not applicable)"""
+    k = ch[0]
+    if k == "set":
+        obj, parts = sim, ch[1].split(".")
+        for q in parts[:-1]:
+            obj = getattr(obj, q)
+        old = getattr(obj, parts[-1])
+        setattr(obj, parts[-1], ch[2])
+        return lambda: setattr(obj, parts[-1], old)
+    if k == "sett":
+        old = sim.t
+        sim.t = ch[1]
+        return lambda: setattr(sim, "t", old)
+    if k == "hash":
+        if ch[1] >= sim.N:
+            return None
+        p = sim.particles[ch[1]]
+        old = p.hash.value if hasattr(p.hash, "value") else int(p.hash)
+        p.hash = ch[2]
+        return lambda: setattr(sim.particles[ch[1]], "hash", old)
+    if k == "edit":
+        if ch[1] >= sim.N:
+            return None
+        old = getattr(sim.particles[ch[1]], ch[2])
+        setattr(sim.particles[ch[1]], ch[2], ch[3])
+        return lambda: setattr(sim.particles[ch[1]], ch[2], old)
+    if k == "lrescale":
+        if sim.N_var_config == 0:
+            return None
+        old = sim.var_config[0]._lrescale
+        sim.var_config[0]._lrescale = ch[1]
+        return lambda: setattr(sim.var_config[0], "_lrescale", old)
+    if k == "varmember":
+        if sim.N_var_config == 0:
+            return None
+        old = getattr(sim.var_config[0], ch[1])
+        setattr(sim.var_config[0], ch[1], ch[2])
+        return lambda: setattr(sim.var_config[0], ch[1], old)
+    if k == "varpart":
+        if sim.N_var == 0:
+            return None
+        i = sim.N - sim.N_var + min(ch[1], sim.N_var - 1)
+        old = getattr(sim.particles[i], ch[2])
+        setattr(sim.particles[i], ch[2], ch[3])
+        return lambda: setattr(sim.particles[i], ch[2], old)
+    if k == "poke":
+        # one element of a persisted integrator array
+        if sim.integrator == "whfast" and sim.ri_whfast._N_allocated > 0:
+            p = sim.ri_whfast._p_jh[min(ch[2], sim.ri_whfast._N_allocated - 1)]
+            old = p.vx
+            p.vx = ch[3]
+            return lambda: setattr(p, "vx", old)
+        if sim.integrator == "ias15" and sim.ri_ias15._N_allocated > ch[2]:
+            arr = sim.ri_ias15._csx if ch[2] % 2 else sim.ri_ias15._b.p3
+            old = arr[ch[2]]
+            arr[ch[2]] = ch[3]
+            def undo():
+                arr[ch[2]] = old
+            return undo
+        return None
+    return None
 
 
 def hex64(x):
@@ -441,6 +528,26 @@ def run_history(rebound, hist, wd, load_back=True, keep_copies=False):
                     setattr(sim.particles[op[1]], op[2], op[3])
                 else:
                     meta["skipped"].append(op)
+            elif o == "hash":
+                if op[1] < sim.N:
+                    sim.particles[op[1]].hash = op[2]
+                else:
+                    meta["skipped"].append(op)
+            elif o == "lrescale":
+                if sim.N_var_config > 0:
+                    sim.var_config[0]._lrescale = op[1]
+                else:
+                    meta["skipped"].append(op)
+            elif o == "change":
+                state["undo"] = apply_change(sim, op[1])
+                if state["undo"] is None:
+                    meta["skipped"].append(op)
+                else:
+                    meta["events"].append("change:" + op[1][0])
+            elif o == "revert":
+                if state.get("undo"):
+                    state["undo"]()
+                    state["undo"] = None
             elif o == "snap":
                 manual_snap()
             elif o == "auto_interval":
@@ -506,7 +613,9 @@ def run_history(rebound, hist, wd, load_back=True, keep_copies=False):
                     kept.append(cp)
                     meta["appends"].append(dict(kind="auto", t=src["t"], steps=src["steps"], N=-1, selfeq=src["selfeq"]))
                 meta["events"].append(dict(integrate=op[1], exact=op[2], hb=hbtrace, fin=(fin["steps"], fin["t"]),
-                                           dt=hex64(sim.dt), auto=state["auto"], nnew=len(new)))
+                                           dt=hex64(sim.dt), auto=state["auto"], nnew=len(new), dir=(1 if op[1] > 0 else -1),
+                                           next_after=hex64(sim.simulationarchive_next),
+                                           next_step_after=int(sim.simulationarchive_next_step)))
                 for c in caps:
                     if os.path.exists(c["path"]):
                         os.remove(c["path"])
